@@ -743,6 +743,19 @@ class Renderer:
             r = self.try_r13(n, recv)
             if r is not None:
                 return r
+        # R2 (filter): E.filter(|pat| C)  ->  match E { Some(__f) => { let pat' = ..; if C { Some(__f) } else { None } }, None => None }
+        # (Option::filter passes a reference: `|&x|` copies the value out, `|x|` binds the reference)
+        if m == "filter" and len(args) == 1 and args[0]["k"] == "Closure" and mode != "keep" and not self.plain \
+                and not (recv["k"] == "MethodCall" and recv["method"] in ("iter", "into_iter", "iter_mut", "map", "filter", "zip", "rev", "enumerate")):
+            c = args[0]
+            self.closure_ok_to_inline(c)
+            pats = [i["text"] for i in c["inputs"]]
+            if len(pats) == 1:
+                pat = pats[0].strip()
+                bind = "let %s = __f;" % pat[1:].strip() if pat.startswith("&") else "let %s = &__f;" % pat
+                self.log.append("R2 .filter(closure) -> match #%d" % n["ord"])
+                return "(match %s { Some(__f) => { %s if %s { Some(__f) } else { None } }, None => None, })" % (
+                    self.render(recv), bind, self.render(self.find(c, c["body"])))
         # R2: Option / Result combinators with a literal closure
         if m in ("map", "and_then", "map_or") and args and args[-1]["k"] == "Closure" and mode != "keep":
             c = args[-1]
@@ -1067,6 +1080,48 @@ def synth_fn(key, rec, impls, ctx, table, by_mod):
     by_mod.setdefault(mod, []).append((sub, text, False))
 
 
+def binding_names(fn):
+    """names bound by the parameters and the `let` statements of a function, in source order"""
+    names = [i["name"] for i in fn.node["inputs"] if not i.get("receiver") and i.get("name")]
+    for n in walk_tree(fn.node["tree"]):
+        if n["k"] == "Local":
+            pat = re.sub(r"\b(mut|ref)\b", " ", n.get("pat_text", "").split(":")[0])
+            names += re.findall(r"\b[a-z_]\w*\b", pat)
+    return names
+
+
+LOCALS_FILE = os.path.join(VERIF, "contracts/locals.json")
+
+
+def follow_renames(fn, rec, log):
+    """R0: a local variable or parameter that was only *renamed* since the contracts were written (same number of bindings,
+    same order) is renamed in the clause texts of that function as well (contracts/locals.json records the names the
+    clauses were written against).  Anything else (bindings added, removed, reordered) changes nothing here."""
+    if not os.path.exists(LOCALS_FILE):
+        return
+    global _LOCALS
+    try:
+        _LOCALS
+    except NameError:
+        _LOCALS = json.load(open(LOCALS_FILE))
+    old = _LOCALS.get(fn.key)
+    new = binding_names(fn)
+    if old is None or old == new or len(old) != len(new):
+        return
+    ren = {}
+    for a, b in zip(old, new):
+        if a != b:
+            if ren.get(a, b) != b:
+                return
+            ren[a] = b
+    if set(ren.values()) & set(old) or len(set(ren.values())) != len(ren):
+        return
+    for sec in rec.sections:
+        for a, b in ren.items():
+            sec.text = re.sub(r"(?<![\w.])%s(?!\w)" % re.escape(a), b, sec.text)
+    log.append("R0 renamed bindings followed in the clauses: " + ", ".join("%s->%s" % x for x in sorted(ren.items())))
+
+
 def generate(outdir, stub=None, probe=False, nohints=None):
     stub = stub or {}
     nohints = nohints or set()
@@ -1120,12 +1175,18 @@ def generate(outdir, stub=None, probe=False, nohints=None):
                     if is_mut_ref:
                         rec.sections.append(Section("ensures", [], tl, fn.key + "#typeinv.post", txt.replace("SELF", "final(self)") + "\n", "typeinv"))
         rec.used = True
+        r0log = []
+        follow_renames(fn, rec, r0log)
         mode = rec.attrs.get("mode", "contract")
         a, b = fn.node["span"]
         entry = {"key": fn.key, "file": fn.src.rel, "span": [fn.node["fn_token"][0], b], "mode": mode,
                  "vis": fn.node.get("vis", ""), "sha256": hashlib.sha256(fn.src.data[a:b]).hexdigest(),
                  "line": fn.src.data[:fn.node["fn_token"][0]].count(b"\n") + 1}
         table[fn.key] = entry
+        # names this body calls (methods and path tails): lets the verdict see which functions lean on a function without contract
+        entry["callees"] = sorted(set([x["method"] for x in walk_tree(fn.node["tree"]) if x["k"] == "MethodCall"]
+                                      + [compact(x["func_text"]).split("::")[-1] for x in walk_tree(fn.node["tree"]) if x["k"] == "Call"]))
+        entry["trait_impl"] = bool(fn.impl is not None and fn.impl.get("trait"))
         if mode == "skip":
             entry["reason"] = rec.attrs.get("reason", "")
             if not entry["reason"]:
@@ -1170,7 +1231,7 @@ def generate(outdir, stub=None, probe=False, nohints=None):
         if mode == "assumed":
             entry["reason"] = rec.attrs.get("reason", "")
             text = text.replace("*/\n", "*/\n#[verifier::external_body]\n", 1)
-        entry["rewrites"] = r.log
+        entry["rewrites"] = r0log + r.log
         entry["nopanic"] = [t.strip() for t in rec.attrs.get("nopanic", "").split(",") if t.strip()]
         entry["sites"] = count_sites(fn.node["tree"])
         entry["gen_name"] = rec.attrs.get("name", fn.name)
